@@ -78,7 +78,13 @@ impl<W: AsyncWrite> AsyncWrite for BufWriter<W> {
             })
             .expect("Closure always return Ok");
 
-        (_, buf) = buf_try!(self.flush_if_needed().await, buf);
+        // The bytes are in the buffer now: a failing eager flush must not tell the
+        // caller that nothing was written. The error resurfaces on the next call.
+        if let Err(e) = self.flush_if_needed().await
+            && written == 0
+        {
+            return BufResult(Err(e), buf);
+        }
 
         BufResult(Ok(written), buf)
     }
@@ -104,7 +110,13 @@ impl<W: AsyncWrite> AsyncWrite for BufWriter<W> {
             })
             .expect("Closure always return Ok");
 
-        (_, buf) = buf_try!(self.flush_if_needed().await, buf);
+        // The bytes are in the buffer now: a failing eager flush must not tell the
+        // caller that nothing was written. The error resurfaces on the next call.
+        if let Err(e) = self.flush_if_needed().await
+            && written == 0
+        {
+            return BufResult(Err(e), buf);
+        }
 
         BufResult(Ok(written), buf)
     }
